@@ -331,6 +331,11 @@ def main():
     chk.extra["rule"] = ("one evaluation = one harness configuration (kind,width,signedness,access path,bounds) explored over "
                          "all feasible paths with all obligations discharged; distinct = distinct configurations")
     e3.run_e3(chk, items, build, replay_module="checks.c18")
+    # randomization as a write path (E1): the values a call leaves in fields of small widths / both signednesses / enum types lie in
+    # the declared type; enum domains are compared with the declared enumerators for all solver values
+    from vf import gen, e1run
+    chk.assume(*e1run.E1_ASSUMPTIONS)
+    e1run.run_specs(chk, gen.c18_programs(tier(), seed()), ("out_of_type", "under_constrained", "returned_values_violate", "other_exception", "spurious_failure"))
     enum_roundtrip(chk)
     chk.finish()
 
